@@ -245,3 +245,112 @@ theorem rendered_nonempty (data t : Bytes) : (data ++ splitTok ++ t).isEmpty = f
   rw [htok]; simp
 
 end AcraModel.AuditLog
+
+namespace AcraModel.AuditLog
+open AcraModel Generated.AuditLog
+
+/-! ### the file reader gives back the lines that were written -/
+
+theorem rawLines_line (l rest acc : Bytes) (hl : ∀ x ∈ l, x ≠ 10) :
+    rawLines (l ++ 10 :: rest) acc = (acc.reverse ++ l) :: rawLines rest [] := by
+  induction l generalizing acc with
+  | nil => simp [rawLines]
+  | cons x t ih =>
+    have hx : x ≠ 10 := hl x List.mem_cons_self
+    have := ih (x :: acc) (fun y hy => hl y (List.mem_cons_of_mem _ hy))
+    simp only [List.cons_append]
+    rw [rawLines]
+    · rw [this]; simp
+    · exact hx
+
+/-- writing each line followed by `\n` and splitting again is the identity on lines without `\n` -/
+theorem rawLines_join (ls : List Bytes) (h : ∀ l ∈ ls, ∀ x ∈ l, x ≠ 10) :
+    rawLines (ls.flatMap fun l => l ++ [10]) [] = ls := by
+  induction ls with
+  | nil => rfl
+  | cons l r ih =>
+    simp only [List.flatMap_cons, List.append_assoc, List.singleton_append]
+    rw [rawLines_line l _ [] (h l List.mem_cons_self), ih (fun m hm => h m (List.mem_cons_of_mem _ hm))]
+    simp
+
+theorem dropCR_id (l : Bytes) (h : l.getLast? ≠ some 13) : dropCR l = l := by
+  unfold dropCR
+  split
+  · next r heq =>
+    exfalso
+    apply h
+    rw [List.getLast?_eq_head?_reverse, heq]
+    rfl
+  · rfl
+
+/-- **the reader (after the repair: no length limit) returns exactly the lines written**, provided no
+line contains a line feed or ends in a carriage return -/
+theorem scanLines_join (ls : List Bytes) (h : ∀ l ∈ ls, (∀ x ∈ l, x ≠ 10) ∧ l.getLast? ≠ some 13) :
+    scanLinesWith "reader" (ls.flatMap fun l => l ++ [10]) = ls := by
+  unfold scanLinesWith
+  rw [rawLines_join ls (fun l hl => (h l hl).1)]
+  simp only [show ("reader" = "scanner") = False by decide, if_false]
+  rw [List.map_congr_left (fun l hl => dropCR_id l (h l hl).2)]
+  simp
+
+end AcraModel.AuditLog
+
+namespace AcraModel.AuditLog
+open AcraModel Generated.AuditLog
+
+theorem hexEnc_plain (b : Bytes) : ∀ x ∈ hexEnc b, plainByte x = true := by
+  induction b with
+  | nil => simp [hexEnc]
+  | cons y r ih =>
+    intro x hx
+    have hy := y.toNat_lt
+    simp only [hexEnc, List.flatMap_cons, List.mem_append, List.mem_cons, List.not_mem_nil, or_false] at hx
+    rcases hx with (h | h) | h
+    · rw [h]; exact hexNib_plain _ (by omega)
+    · rw [h]; exact hexNib_plain _ (by omega)
+    · exact ih x (by simpa [hexEnc] using h)
+
+theorem plain_not_eol (x : UInt8) (h : plainByte x = true) : x ≠ 10 ∧ x ≠ 13 := by
+  constructor <;> (intro e; subst e; revert h; decide)
+
+/-- everything the hook appends to the formatter output is ordinary ASCII (no line feed, no carriage return) -/
+theorem appended_plain (tag : Bytes) (new : Bool) : ∀ x ∈ splitTok ++ tagPart tag new, x ≠ 10 ∧ x ≠ 13 := by
+  intro x hx
+  rcases List.mem_append.mp hx with h | h
+  · have : ∀ y ∈ splitTok, y ≠ 10 ∧ y ≠ 13 := by decide
+    exact this x h
+  · unfold tagPart at h
+    rcases List.mem_append.mp h with h | h
+    · exact plain_not_eol x (hexEnc_plain tag x h)
+    · cases new with
+      | true =>
+        have : ∀ y ∈ newSuffix, y ≠ 10 ∧ y ≠ 13 := by decide
+        exact this x h
+      | false => simp at h
+
+/-- a rendered line has no line feed if the formatter output has none, and never ends in a carriage return -/
+theorem rendered_clean (formatted tag : Bytes) (new : Bool) (hf : ∀ x ∈ formatted, x ≠ 10) :
+    (∀ x ∈ formatted ++ splitTok ++ tagPart tag new, x ≠ 10) ∧
+      (formatted ++ splitTok ++ tagPart tag new).getLast? ≠ some 13 := by
+  have hap := appended_plain tag new
+  constructor
+  · intro x hx
+    rw [List.append_assoc] at hx
+    rcases List.mem_append.mp hx with h | h
+    · exact hf x h
+    · exact (hap x h).1
+  · rw [List.append_assoc]
+    have hne : splitTok ++ tagPart tag new ≠ [] := by
+      have htok : splitTok = 32 :: strB "integrity=" := by decide
+      rw [htok]; simp
+    rw [List.getLast?_append]
+    intro h
+    cases hl : (splitTok ++ tagPart tag new).getLast? with
+    | none => exact hne (List.getLast?_eq_none_iff.mp hl)
+    | some z =>
+      rw [hl] at h
+      have hz : z = 13 := by simpa [Option.or] using h
+      subst hz
+      exact (hap _ (List.mem_of_getLast? hl)).2 rfl
+
+end AcraModel.AuditLog
